@@ -37,7 +37,7 @@ func init() {
 			"F2 every copy into a fixed-size pooled buffer is bounded by guards whose constants fit the buffer including the destination offset (or the buffer is re-allocated to the source length), and re-slices of pooled buffers use lengths derived from the buffer; F3 two-sided slices have ordered bounds (or the MarshalSize-of-a-header-parsed-from-the-same-bytes idiom) and length-relative bounds are tested; " +
 			"F4 results of Attributes.GetRTPHeader/GetRTCPPackets, rtcp.Unmarshal and pion/rtp Unmarshal are used only on the success branch of their error; A4 read buffers are used only as buffer[:n]; D3 no blocking send/receive on an internal channel on an API path without a close-channel case or default (no wedge).",
 		notDecided:  "crash-freedom itself: panics whose absence rests on arithmetic invariants (ring/bitmap indices seq%size, packetArrivalTimeMap capacity arithmetic, flexfec XOR lengths and constant header offsets), nil dereferences, panics inside pion/rtp and pion/rtcp, termination of loops (all loops over untrusted counts are bounded by 16-bit fields; not checked mechanically), one-sided slices s[n:] whose bound a callee computed",
-		sels:        []sel{s("W4"), s("W3"), s("T8"), s("N3"), s("W2"), s("X5"), s("F8"), s("X3"), s("X2"), s("A7"), s("D7"), s("T5"), s("N1"), s("N2"), s("C7"), s("A5"), so("F6"), so("F5"), so("L4", `jitterbuffer`), s("F1"), s("F2"), so("F3"), s("F4"), s("A4"), s("D3")},
+		sels:        []sel{s("N4"), s("W4"), s("W3"), s("T8"), s("N3"), s("W2"), s("X5"), s("F8"), s("X3"), s("X2"), s("A7"), s("D7"), s("T5"), s("N1"), s("N2"), s("C7"), s("A5"), so("F6"), so("F5"), so("L4", `jitterbuffer`), s("F1"), s("F2"), so("F3"), s("F4"), s("A4"), s("D3")},
 		assumptions: append([]string{"comparisons are credited as guards whatever their direction/strictness (a missing guard is detected, an off-by-one in a present guard is not, except for constant guards of pooled-buffer copies where the arithmetic is checked)", "two evaluations of a condition built only from parameters and constants agree (path classes are split on such conditions)"}, stdAssume...),
 	})
 	def(&propDef{
@@ -54,7 +54,7 @@ func init() {
 		explanation: "Decides for every go statement, goroutine loop, API-path channel operation, lifecycle channel and per-stream container: D1 each goroutine is dominated by WaitGroup.Add on a field of its owner, its entry defers Done, the owner's Close reaches Wait on every path; D2 every blocking loop in a goroutine has a select case on (or ranges over) a channel that a Close method closes, and that case leaves the loop; " +
 			"D3 every send/receive on an internal channel in a function reachable from the API sits in a select with a close-channel case or a default; D4 close(lifecycle) and the start sequence share a mutex; D5 every container keyed by StreamInfo.SSRC that Bind{Local,Remote}Stream fills is emptied by the Unbind of the same direction and binding installs fresh state; D6 Bind starts a goroutine only on the not-closed branch of a closed test; C5(wait) a WaitGroup.Wait or blocking channel operation executed while a lock is held (including a lock held by the caller of Close) has no counterpart goroutine that can need that lock — Close cannot deadlock against the goroutine it waits for.",
 		notDecided:  "wall-clock promptness; goroutines blocked inside a user-supplied writer; that nothing is written after Close returns when the goroutine is accounted but slow; double Close",
-		sels:        []sel{s("Y1"), s("F9"), s("N3"), s("U3"), s("D9"), s("D8"), s("D7"), s("N1"), s("N2"), s("C7"), s("D1"), s("D2"), s("D3"), s("D4"), s("D5"), s("D6"), s("C5", `\|wait:`)},
+		sels:        []sel{s("N4"), s("Y1"), s("F9"), s("N3"), s("U3"), s("D9"), s("D8"), s("D7"), s("N1"), s("N2"), s("C7"), s("D1"), s("D2"), s("D3"), s("D4"), s("D5"), s("D6"), s("C5", `\|wait:`)},
 		assumptions: append([]string{"channels are identified by the struct fields / make sites they flow through (parameters resolved through static call sites)", "only closes executed from a Close method count as shutdown signals"}, stdAssume...),
 	})
 }
@@ -129,7 +129,7 @@ func init() {
 		explanation: "Decides the structural clauses the statement singles out: G1 — in every function that walks []*rtcp.RecvDelta with a cursor, no instruction that advances the cursor is control-dependent (post-dominator based, transitively) on a condition derived from a lookup in long-lived state (a comma-ok map lookup on a field, or a (T,bool) lookup predicate such as feedbackHistory.get): the arrival time decoded for a packet is independent of whether neighbouring packets are still in the history; " +
 			"G2 — in every symbol loop, the counter that feeds the attribution key (feedbackHistoryKey.sequenceNumber / acknowledgement.sequenceNumber) is advanced exactly once on every path through the loop body (path counting), or is the range index; F1 — every index into RecvDeltas / packet-derived slices is guarded; E2 — the flag that lets history.delete release the TWCC mapping is actually set.",
 		notDecided:  "arrival-time arithmetic (reference time ×64 ms, 250 µs deltas, RFC 8888 offsets), LRU contents of the sent-packet history, that each sent packet is reported at most once and in send order (value properties of history.buildReport), zero-valued acknowledgements emitted for unknown packets",
-		sels:        []sel{s("W4", `inspected|\|(pkg/(rtpfb|twcc|rfc8888|gcc|cc)|internal/cc)[.:]`), s("Z1", `inspected|\|(pkg/(rtpfb|twcc|rfc8888)|internal/cc)[.:]`), s("W2", `inspected|\|(pkg/(rtpfb|twcc|rfc8888)|internal/cc)[.:]`), s("E7"), s("X4", `inspected|\|pkg/(rtpfb|twcc|rfc8888|cc|gcc)[.:]`), s("G4", `inspected|internal/cc|rtpfb`), s("O4", `inspected|rtpfb|internal/cc`), s("O2", `inspected|rtpfb`), s("A9"), s("W1", `\|(pkg/rtpfb|internal/cc)[.:]`), s("V1", `\|(pkg/rtpfb|internal/cc)[.:]`), s("J5", `\|(pkg/rtpfb|internal/cc)[.:]`), s("F7"), s("G3", `rtpfb`), s("P3", `rtpfb\.history`), s("J3", `\|(pkg/rtpfb|internal/cc)[.:]`), so("G1"), so("G2"), so("F1", `rtpfb\.convertTWCC|FeedbackAdapter|rtpfb\.convert`), so("E2", `rtpfb\.history`), so("E1", `rtpfb\.history`)},
+		sels:        []sel{s("X6"), s("W4", `inspected|\|(pkg/(rtpfb|twcc|rfc8888|gcc|cc)|internal/cc)[.:]`), s("Z1", `inspected|\|(pkg/(rtpfb|twcc|rfc8888)|internal/cc)[.:]`), s("W2", `inspected|\|(pkg/(rtpfb|twcc|rfc8888)|internal/cc)[.:]`), s("E7"), s("X4", `inspected|\|pkg/(rtpfb|twcc|rfc8888|cc|gcc)[.:]`), s("G4", `inspected|internal/cc|rtpfb`), s("O4", `inspected|rtpfb|internal/cc`), s("O2", `inspected|rtpfb`), s("A9"), s("W1", `\|(pkg/rtpfb|internal/cc)[.:]`), s("V1", `\|(pkg/rtpfb|internal/cc)[.:]`), s("J5", `\|(pkg/rtpfb|internal/cc)[.:]`), s("F7"), s("G3", `rtpfb`), s("P3", `rtpfb\.history`), s("J3", `\|(pkg/rtpfb|internal/cc)[.:]`), so("G1"), so("G2"), so("F1", `rtpfb\.convertTWCC|FeedbackAdapter|rtpfb\.convert`), so("E2", `rtpfb\.history`), so("E1", `rtpfb\.history`)},
 		assumptions: std,
 	}
 	props["C16"] = &propDef{
@@ -157,7 +157,7 @@ func init() {
 		explanation: "Decides the structural clauses: M1 — in FlexEncoder03.encodeFlexFecPacket all accesses to the coverage table (GetCoveredBy, ExtractMask1/2/3_03) use one and the same index value, so the masks written name exactly the packets that were combined, and the repair sequence number is advanced exactly once on every path that produces a packet and on none that does not; " +
 			"P2 + A1 — the application's packet is forwarded first, exactly once, unmodified (A3), and repair packets are injections issued only after it; B — what is buffered for XOR is a deep copy of what was sent (caller may reuse its buffer); F2 — the scratch buffer is re-allocated when a packet exceeds the pooled size; E3/C1 — the batch buffer is reset on every path from the batch-full trigger, under the stream mutex.",
 		notDecided:  "XOR recoverability itself, bit layout of the masks, header offsets and length recovery — algebra over byte values; the coverage mask construction (flexfec_coverage.go); FlexEncoder20 and the decoder (declared work in progress)",
-		sels:        []sel{so("P4"), s("V3", `inspected|\|pkg/flexfec[.:]`), s("W2", `inspected|\|pkg/flexfec[.:]`), s("X4", `inspected|\|pkg/flexfec[.:]`), s("W1", `\|pkg/flexfec`), s("V1", `\|pkg/flexfec`), s("T5", `inspected|flexfec`), so("T4", `flexfec`), s("K4", `\|pkg/flexfec[.:]`), s("T3", `flexfec`), s("M1"), so("P2", `flexfec`), s("A1", `flexfec`), s("A3", `flexfec`), s("B", `flexfec`), so("F2", `flexfec`), so("E3", `flexfec`), s("C1", `flexfec\.`)},
+		sels:        []sel{s("U4"), so("P4"), s("V3", `inspected|\|pkg/flexfec[.:]`), s("W2", `inspected|\|pkg/flexfec[.:]`), s("X4", `inspected|\|pkg/flexfec[.:]`), s("W1", `\|pkg/flexfec`), s("V1", `\|pkg/flexfec`), s("T5", `inspected|flexfec`), so("T4", `flexfec`), s("K4", `\|pkg/flexfec[.:]`), s("T3", `flexfec`), s("M1"), so("P2", `flexfec`), s("A1", `flexfec`), s("A3", `flexfec`), s("B", `flexfec`), so("F2", `flexfec`), so("E3", `flexfec`), s("C1", `flexfec\.`)},
 		assumptions: std,
 	}
 	props["C17"] = &propDef{
@@ -314,6 +314,13 @@ func init() {
 	// rules added after seed round 8 (DESIGN.md §10.12)
 	add("C10", "C9 no call of a user callback (a function held in a field or listener table) or of the neighbouring chain element happens with one of the object's mutexes held, beyond the (callee, mutex) pairs confirmed on the pinned tree: foreign code that calls back into the object would wait for the mutex its caller holds.")
 	add("C16", "C9 the bitrate-change callback and the pacer's downstream writes are not moved under the estimator's / pacer's mutexes.")
+	add("C09", "X6 a call that files or looks up a packet by header.SequenceNumber takes the SSRC from the same header (every argument for a parameter named *ssrc* is a load of that header's SSRC): retransmissions and FlexFEC repair packets travel through the media stream's writer with their own SSRC and sequence space — filed under the SSRC the stream was bound with they overwrite the media packet with the same number.")
+	add("C11", "N4 a pointer read out of a map with m[k] is used (field selected, method called) only on the true branch of the lookup's ok, behind a nil test, or after a store of the same key in the same function: Unbind for a stream that was turned away at Bind, a second Unbind, an Unbind after Close all look up an SSRC that is not in the table.")
+	add("C14", "U4 a field filled on first use (a store under a test of that field against nil / length zero, with a value computed from other fields of the object and from no argument) is reset by every function that writes one of those fields: a per-FEC-index list of covered packets memoised across UpdateCoverage keeps answering for the previous mask.")
+	add("C16", "R1 also follows a received slice through a local variable that a closure captures (the less function of sort.Slice).")
+	add("C18", "L2 also: a store to the playout head in a pop function is the head's previous value plus the constant one — a head set from the popped packet's own number (after a pop by timestamp) jumps over everything buffered in between.")
+	add("C19", "S8 also (once per packet): a `…Count++` on the statistics under the type switch over a compound's members sits in no loop the switch is not in — nackCount/pliCount/firCount are numbers of packets (webrtc-stats), not of matching FCI entries.")
+	add("C02", "W2 also (down-counting loops): a loop that walks a slice from the back and indexes it with the loop variable stops at a bound that cannot be negative — a constant, or len(s) − k only where k is min(len(s), …) or has been compared with the length: `i >= len(s)-limit` with a configured window ends at s[-1] while fewer than limit entries exist.")
 	add("C02", "F3 also (count form): a prefix `s[:n]` whose n is a count field of a received RTCP/RTP object (TransportLayerCC.PacketStatusCount, a report's length) is preceded by a comparison of n with len(s) or cap(s), or s was made with that very n: the count is what the sender claims, not what the chunks decoded to.")
 	add("C10", "O5 also: a local header *value* filled by dereferencing the stored header (`h := *pkt.Header()`) is not owned — its CSRC and extension slices are the stored ones; only Clone() or a fresh literal is.")
 	add("C17", "Q1 also (list queue): the function that removes from the pacer's queue never inserts into it — a packet taken out and put back at the tail is behind every packet accepted since, those of its own stream included.")
